@@ -46,11 +46,16 @@ def _data(n, d=2):
 
 def run_case(case):
     family, n, bs, aff_mode, max_iter, decorated, script, mode = case
+    spelling = None
+    if isinstance(bs, str):                 # the same batch size spelled as a numpy integer / with the reporting flag on
+        spelling, bs = bs.split(":")[0], int(bs.split(":")[1])
     X = _data(n)
     K = min(2, n)
     kw = dict(n_clusters=K, max_iter=max_iter, random_state=1)
+    if spelling == "verbose":
+        kw["verbose"] = True
     if family != "CategoricalModel":
-        kw["batch_size"] = bs
+        kw["batch_size"] = {"np64": np.int64, "np32": np.int32}.get(spelling, int)(bs) if bs is not None else None
     y = None
     if family == "KernelRIM":
         aff_mode = "none"
@@ -99,7 +104,7 @@ def run_case(case):
         if decorated:
             used.append(list(getattr(spy.orig, "indices", [])))
     rs = seams.ScriptedRandomState(7, perm_script=[list(p) for p in script])
-    where = dict(family=family, n=n, batch_size=bs, affinity=aff_mode, decorated=decorated, mode=mode)
+    where = dict(family=family, n=n, batch_size=bs, affinity=aff_mode, decorated=decorated, mode=mode, spelling=spelling)
     v = []
     import gemclus.sparse._base_sparse as _bs
     real_cvs, val_calls = _bs.compute_val_score, []
@@ -109,8 +114,11 @@ def run_case(case):
         return real_cvs(clf, Xa, ya, bsz, gem)
     if aff_mode == "dynamic_callable":
         _bs.compute_val_score = cvs_spy
+    import contextlib
+    import io
     try:
-        v_pre = _run_training(model, mode, X, y, K, n, rs, cb, spy, updates)
+        with contextlib.redirect_stdout(io.StringIO()):
+            v_pre = _run_training(model, mode, X, y, K, n, rs, cb, spy, updates)
     finally:
         _bs.compute_val_score = real_cvs
     # selection at the start of each path step = selection seen by the validation call that opens the step (the second of two consecutive
@@ -148,6 +156,8 @@ def _run_training(model, mode, X, y, K, n, rs, cb, spy, updates):
 
 def _judge(case, model, spy, X, y, K, n, rs, updates, used, where, v, step_sel):
     family, n, bs, aff_mode, max_iter, decorated, script, mode = case
+    if isinstance(bs, str):
+        bs = int(bs.split(":")[1])
     eff_bs = n if (bs is None or family == "CategoricalModel") else bs
     nb = math.ceil(n / eff_bs)
     # expected full affinity the batches must be cut from
@@ -265,8 +275,20 @@ def explorers(tier, seed):
             if family != "CategoricalModel":
                 for mode in ("refit_up", "refit_down"):
                     cases.append((family, 33, 8, "none" if family == "KernelRIM" else "precomputed", 2, True, (), mode))
+    for family in MODELS:
+        if family == "CategoricalModel":
+            continue
+        for n in (5, 7, 33):
+            for sp in ("np64", "np32", "verbose"):
+                for bs in (2, 3, n - 1, n + 1):
+                    for decorated in (False, True):
+                        for aff_mode in (["none"] if family == "KernelRIM" else ["precomputed"]):
+                            cases.append((family, n, f"{sp}:{bs}", aff_mode, 2, decorated, (), "fit"))
     pc = []
     for family in ("SparseLinearModel", "SparseMLPModel"):
+        for sp in ("np64", "verbose"):
+            pc.append((family, 6, f"{sp}:2", "precomputed", 2, False, (), "path"))
+            pc.append((family, 6, f"{sp}:4", "none", 2, True, (), "path"))
         for n in (5, 6, 40):
             for bs in (2, 3, None):
                 pc.append((family, n, bs, "dynamic_callable", 2, False, (), "path"))
